@@ -38,9 +38,22 @@
 (*                                                                                        *)
 (* Views (constant Role): "single" = 1-replica group (commit is local); "leader" /        *)
 (* "follower" = one replica of a 3-replica group, the other two are environment: glog is  *)
-(* the group-committed log.  Deliberate deviations: truncation of an uncommitted suffix   *)
-(* after a leader change is not modelled (C02/C03's business); one snapshot goroutine at  *)
-(* a time; the incoming-snapshot (install) path is not modelled.                          *)
+(* the group-committed log.  A leader that crashed comes back as a follower whose         *)
+(* persisted, uncommitted suffix is either adopted by the group (EnvAdopt) or truncated   *)
+(* and replaced by the new leader's entries (TakeReady of a follower whose log differs    *)
+(* from glog; WalSave then overwrites the WAL from there).  With Install = TRUE a         *)
+(* follower may be sent a snapshot instead of entries: TakeReadySnap, InstPublish,        *)
+(* InstPrepare (fetch the checkpoint), InstSnapFile, InstSnapMarker, InstWalSave,         *)
+(* InstSyncDone1, InstRelease, InstRestore(Begin), with Crash between any two             *)
+(* (MC_ZNode_install.cfg; property InstalledDurable).  Two switches separate the design   *)
+(* from what the code does today: AtomicRestore (FALSE = files copied in place:           *)
+(* MC_ZNode_install_torn.cfg refutes PurgeKeepsRestorable / Recoverable - known finding   *)
+(* c06-torn-restore-blocks-engine-open) and InstLatestAfterSave (FALSE = the store's      *)
+(* latest-snapshot index, which the checkpoint purge trusts, moves before the hard state  *)
+(* is in the WAL: MC_ZNode_install_code.cfg refutes PurgeKeepsRestorable - a suspicion,   *)
+(* its schedule needs a checkpoint purge inside that window and was not replayed).        *)
+(* Deliberate deviations: one snapshot goroutine at a time; at most one install; an       *)
+(* install Ready carries no entries.                                                      *)
 EXTENDS Integers, Sequences, FiniteSets, TLC
 
 CONSTANTS MaxOps,      \* number of client operations
@@ -55,6 +68,16 @@ CONSTANTS MaxOps,      \* number of client operations
           Persistent,  \* TRUE: the engine's own files survive a crash (pebble); FALSE: mem
           SafePublish, \* TRUE: the code since 8d8be68 - hand out only entries already in the WAL;
                        \* FALSE: the old order (spec mutant, refuted by AckedDurable)
+          Install,     \* TRUE: a follower may be sent a snapshot instead of entries (install path)
+          AtomicRestore, \* TRUE: restoring a checkpoint into the engine directory is atomic (the design);
+                       \* FALSE: the code - files are copied in place, a crash in between leaves a torn
+                       \* directory that the next start cannot open (known finding
+                       \* c06-torn-restore-blocks-engine-open: refuted by Recoverable)
+          InstLatestAfterSave, \* install: TRUE = the store learns the new "latest snapshot index" (which the
+                       \* checkpoint purge trusts) only when the hard state that makes the snapshot usable is
+                       \* in the WAL (the design); FALSE = the code's order in persistRaftState
+                       \* (UpdateSnapshotState between SaveSnap and wal.Save): MC_ZNode_install_code.cfg
+                       \* refutes PurgeKeepsRestorable with it (suspicion, not replayed on real code)
           Mutant       \* "" = the design; otherwise one guard is removed (self-test)
 
 VARIABLES
@@ -63,19 +86,20 @@ VARIABLES
   glog,                                                \* group-committed log (environment)
   chan, pcA, cur, applied, snapi, store, lastIdx,      \* commitC and the apply goroutine
   pcS, sIdx, sImg, latestSnap, released, nsnaps, purgeCk, \* snapshot goroutine
-  walEnts, walCommit, walSnaps, walLow, snapFiles, ckpt,  \* durable
+  walEnts, walCommit, walSnaps, walLow, snapFiles, ckpt, torn,  \* durable
+  instApplied, ninst,                                   \* install path: snapshot the store was restored from; count
   up, crashes, restarts, failedRestart                 \* life cycle
 
 vars == <<nextId, pend, acked, ackOk, ackCnt, failed, propQ, rlog, commit, handed, rdy, rseq,
           pcR, role, glog, chan, pcA, cur, applied, snapi, store, lastIdx, pcS, sIdx, sImg,
           latestSnap, released, nsnaps, purgeCk, walEnts, walCommit, walSnaps, walLow,
-          snapFiles, ckpt, up, crashes, restarts, failedRestart>>
+          snapFiles, ckpt, torn, instApplied, ninst, up, crashes, restarts, failedRestart>>
 
 clientVars == <<nextId, pend, acked, ackOk, ackCnt, failed>>
-raftVars   == <<propQ, rlog, commit, handed, rdy, rseq, pcR, role>>
-applyVars  == <<chan, pcA, cur, applied, snapi, store, lastIdx>>
+raftVars   == <<propQ, rlog, commit, handed, rdy, rseq, pcR, role, ninst>>
+applyVars  == <<chan, pcA, cur, applied, snapi, store, lastIdx, instApplied>>
 snapVars   == <<pcS, sIdx, sImg, latestSnap, released, nsnaps, purgeCk>>
-durVars    == <<walEnts, walCommit, walSnaps, walLow, snapFiles, ckpt>>
+durVars    == <<walEnts, walCommit, walSnaps, walLow, snapFiles, ckpt, torn>>
 lifeVars   == <<up, crashes, restarts, failedRestart>>
 
 Range(s) == {s[i] : i \in 1..Len(s)}
@@ -83,8 +107,13 @@ Min(a, b) == IF a < b THEN a ELSE b
 Max(a, b) == IF a > b THEN a ELSE b
 MaxOf(S) == CHOOSE x \in S : \A y \in S : y <= x
 MinOf(S) == CHOOSE x \in S : \A y \in S : y >= x
-NoRdy == [to |-> 0, lo |-> 1, hi |-> 0, c |-> 0, r |-> 0]
-NoBatch == [lo |-> 1, hi |-> 0, done |-> FALSE, r |-> 0, i |-> 1]
+NoRdy == [to |-> 0, lo |-> 1, hi |-> 0, c |-> 0, r |-> 0, snap |-> 0]
+NoBatch == [lo |-> 1, hi |-> 0, done |-> FALSE, r |-> 0, i |-> 1, snap |-> 0, prep |-> FALSE, done1 |-> FALSE]
+IsPrefix(a, b) == Len(a) <= Len(b) /\ SubSeq(b, 1, Len(a)) = a
+(* length of the common prefix of two sequences *)
+CP(a, b) == LET n == Min(Len(a), Len(b))
+                S == {i \in 0..n : SubSeq(a, 1, i) = SubSeq(b, 1, i)}
+            IN MaxOf(S)
 Single == Role = "single"
 
 Init ==
@@ -98,27 +127,27 @@ Init ==
   /\ purgeCk = FALSE
   /\ walEnts = <<>> /\ walCommit = 0 /\ walSnaps = {} /\ walLow = 1 /\ snapFiles = {}
   /\ ckpt = <<>>     \* a function from snapshot index to store image; <<>> = empty function
+  /\ torn = FALSE /\ instApplied = 0 /\ ninst = 0
   /\ up = TRUE /\ crashes = 0 /\ restarts = 0 /\ failedRestart = FALSE
 
 ----------------------------------------------------------------------------
 (* Clients: ProposeInternal registers the waiter, then proposes (only enqueues). *)
 Propose ==
   /\ up /\ nextId <= MaxOps
-  /\ (role = "follower" => Len(glog) >= Len(rlog))
   /\ pend' = pend \cup {nextId}
   /\ nextId' = nextId + 1
   /\ IF role = "follower"
      THEN \* forwarded to the leader; the group commits it (durable on the other two)
           /\ glog' = Append(glog, nextId) /\ UNCHANGED propQ
      ELSE /\ propQ' = Append(propQ, nextId) /\ UNCHANGED glog
-  /\ UNCHANGED <<acked, ackOk, ackCnt, failed, rlog, commit, handed, rdy, rseq, pcR, role>>
+  /\ UNCHANGED <<acked, ackOk, ackCnt, failed, rlog, commit, handed, rdy, rseq, pcR, role, ninst>>
   /\ UNCHANGED <<applyVars, snapVars, durVars, lifeVars>>
 
 (* after a leader crash the group goes on without this node: entries of its log that were  *)
 (* persisted but not yet group-committed are committed by the new leader (truncation of    *)
 (* such a suffix is not modelled, see the header)                                          *)
 EnvAdopt ==
-  /\ up /\ role = "follower" /\ pcR = "idle" /\ Len(rlog) > Len(glog)
+  /\ up /\ role = "follower" /\ pcR = "idle" /\ Len(rlog) > Len(glog) /\ IsPrefix(glog, rlog)
   /\ glog' = rlog
   /\ UNCHANGED <<clientVars, raftVars, applyVars, snapVars, durVars, lifeVars>>
 
@@ -138,46 +167,52 @@ TakeReady ==
   /\ up /\ pcR = "idle"
   /\ \E recv \in BOOLEAN, k \in 0..MaxOps :
        LET rl == IF role = "follower"
-                 THEN IF recv /\ Len(glog) > Len(rlog) THEN glog ELSE rlog
+                 THEN \* an append from the (new) leader: missing entries arrive; where the local log
+                      \* differs from the group's (an uncommitted suffix of a deposed leader) it is
+                      \* truncated and replaced
+                      IF recv /\ ((~IsPrefix(rlog, glog) /\ ~IsPrefix(glog, rlog)) \/ (Len(glog) > Len(rlog) /\ IsPrefix(rlog, glog)))
+                      THEN glog ELSE rlog
                  ELSE rlog \o propQ
            cmax == CASE role = "single"   -> Len(rl)
                      [] role = "leader"   -> Len(walEnts)       \* persisted and sent earlier
-                     [] role = "follower" -> Min(Len(rl), Len(glog))
+                     [] role = "follower" -> CP(rl, glog)
            c == IF role = "single" THEN cmax ELSE Max(commit, Min(k, cmax))
-           lim == IF SafePublish THEN Min(c, Len(walEnts)) ELSE c
+           lim == IF SafePublish THEN Min(c, CP(walEnts, rl)) ELSE c
            hi == IF Len(chan) < ChanCap THEN lim ELSE handed
        IN /\ (role = "single" => k = 0 /\ recv)
           /\ (role = "leader" => recv)
           /\ (role # "single" => k >= commit /\ k <= cmax)
-          /\ Len(rl) > Len(walEnts) \/ hi > handed \/ c > walCommit   \* hasUpdate
+          /\ ~IsPrefix(rl, walEnts) \/ hi > handed \/ c > walCommit   \* hasUpdate
           /\ rlog' = rl /\ commit' = c /\ propQ' = <<>>
           /\ rseq' = rseq + 1
-          /\ rdy' = [to |-> Len(rl), lo |-> handed + 1, hi |-> hi, c |-> c, r |-> rseq + 1]
+          /\ rdy' = [to |-> Len(rl), lo |-> handed + 1, hi |-> hi, c |-> c, r |-> rseq + 1, snap |-> 0]
           /\ pcR' = IF hi > handed THEN "pub" ELSE "save"
           /\ glog' = IF role = "leader" /\ c > Len(glog) THEN SubSeq(rl, 1, c) ELSE glog
-  /\ UNCHANGED <<handed, role, clientVars, applyVars, snapVars, durVars, lifeVars>>
+  /\ UNCHANGED <<handed, role, ninst, clientVars, applyVars, snapVars, durVars, lifeVars>>
 
 (* processReady: publishEntries(rd.CommittedEntries, ...) -> commitC *)
 Publish ==
   /\ up /\ pcR = "pub"
-  /\ chan' = Append(chan, [lo |-> rdy.lo, hi |-> rdy.hi, done |-> FALSE, r |-> rdy.r, i |-> rdy.lo])
+  /\ chan' = Append(chan, [NoBatch EXCEPT !.lo = rdy.lo, !.hi = rdy.hi, !.r = rdy.r, !.i = rdy.lo])
   /\ pcR' = "save"
-  /\ UNCHANGED <<propQ, rlog, commit, handed, rdy, rseq, role, glog, clientVars,
-                 pcA, cur, applied, snapi, store, lastIdx, snapVars, durVars, lifeVars>>
+  /\ UNCHANGED <<propQ, rlog, commit, handed, rdy, rseq, role, ninst, glog, clientVars,
+                 pcA, cur, applied, snapi, store, lastIdx, instApplied, snapVars, durVars, lifeVars>>
 
 (* persistRaftState: wal.Save(hardstate, entries) *)
 WalSave ==
   /\ up /\ pcR = "save"
-  /\ walEnts' = walEnts \o SubSeq(rlog, Len(walEnts) + 1, rdy.to)
+  /\ LET new == SubSeq(rlog, 1, rdy.to) IN
+       walEnts' = IF IsPrefix(new, walEnts) THEN walEnts     \* nothing new
+                  ELSE new     \* appended; or, where it differs, overwritten from there (WAL read rule)
   /\ walCommit' = rdy.c
   /\ pcR' = "append"
-  /\ UNCHANGED <<propQ, rlog, commit, handed, rdy, rseq, role, glog, clientVars, applyVars,
-                 snapVars, walSnaps, walLow, snapFiles, ckpt, lifeVars>>
+  /\ UNCHANGED <<propQ, rlog, commit, handed, rdy, rseq, role, ninst, glog, clientVars, applyVars,
+                 snapVars, walSnaps, walLow, snapFiles, ckpt, torn, lifeVars>>
 
 (* raftStorage.Append(rd.Entries): memory only *)
 StorageAppend ==
   /\ up /\ pcR = "append" /\ pcR' = "done"
-  /\ UNCHANGED <<propQ, rlog, commit, handed, rdy, rseq, role, glog, clientVars, applyVars,
+  /\ UNCHANGED <<propQ, rlog, commit, handed, rdy, rseq, role, ninst, glog, clientVars, applyVars,
                  snapVars, durVars, lifeVars>>
 
 (* raftDone <- struct{}{} : the batch published by this Ready may now trigger a snapshot *)
@@ -185,14 +220,14 @@ RaftDone ==
   /\ up /\ pcR = "done" /\ pcR' = "adv"
   /\ chan' = [j \in 1..Len(chan) |-> IF chan[j].r = rdy.r THEN [chan[j] EXCEPT !.done = TRUE] ELSE chan[j]]
   /\ cur' = IF cur.r = rdy.r /\ rdy.r > 0 THEN [cur EXCEPT !.done = TRUE] ELSE cur
-  /\ UNCHANGED <<propQ, rlog, commit, handed, rdy, rseq, role, glog, clientVars,
-                 pcA, applied, snapi, store, lastIdx, snapVars, durVars, lifeVars>>
+  /\ UNCHANGED <<propQ, rlog, commit, handed, rdy, rseq, role, ninst, glog, clientVars,
+                 pcA, applied, snapi, store, lastIdx, instApplied, snapVars, durVars, lifeVars>>
 
 Advance ==
   /\ up /\ pcR = "adv" /\ pcR' = "idle"
-  /\ handed' = IF rdy.hi > handed THEN rdy.hi ELSE handed
+  /\ handed' = Max(handed, Max(rdy.hi, rdy.snap))
   /\ rdy' = NoRdy
-  /\ UNCHANGED <<propQ, rlog, commit, rseq, role, glog, clientVars, applyVars, snapVars,
+  /\ UNCHANGED <<propQ, rlog, commit, rseq, role, ninst, glog, clientVars, applyVars, snapVars,
                  durVars, lifeVars>>
 
 ----------------------------------------------------------------------------
@@ -201,8 +236,8 @@ Advance ==
 TakeBatch ==
   /\ up /\ pcA = "idle" /\ chan # <<>>
   /\ cur' = Head(chan) /\ chan' = Tail(chan)
-  /\ pcA' = "apply"
-  /\ UNCHANGED <<applied, snapi, store, lastIdx, clientVars, raftVars, glog, snapVars,
+  /\ pcA' = IF Head(chan).snap > 0 THEN "iprep" ELSE "apply"
+  /\ UNCHANGED <<applied, snapi, store, lastIdx, instApplied, clientVars, raftVars, glog, snapVars,
                  durVars, lifeVars>>
 
 (* applyEntries: entries at or below appliedi are skipped; the others applied in order *)
@@ -213,7 +248,7 @@ ApplyEntry ==
      ELSE /\ store' = Append(store, rlog[cur.i])
           /\ applied' = cur.i
           /\ pcA' = "trig" /\ UNCHANGED cur
-  /\ UNCHANGED <<chan, snapi, lastIdx, clientVars, raftVars, glog, snapVars, durVars, lifeVars>>
+  /\ UNCHANGED <<chan, snapi, lastIdx, instApplied, clientVars, raftVars, glog, snapVars, durVars, lifeVars>>
 
 (* w.Trigger(reqID, result) from ApplyRaftRequest / CommitBatch: answers the waiter of    *)
 (* exactly the id that was just applied, if it is still registered, and removes it.       *)
@@ -229,7 +264,7 @@ Trigger ==
        ELSE UNCHANGED <<acked, ackCnt, ackOk, pend>>
   /\ cur' = [cur EXCEPT !.i = @ + 1]
   /\ pcA' = "apply"
-  /\ UNCHANGED <<nextId, failed, chan, applied, snapi, store, lastIdx, raftVars, glog, snapVars,
+  /\ UNCHANGED <<nextId, failed, chan, applied, snapi, store, lastIdx, instApplied, raftVars, glog, snapVars,
                  durVars, lifeVars>>
 
 (* self-test mutant: answer as soon as the entry is handed to the apply loop *)
@@ -246,7 +281,7 @@ EarlyTrigger ==
 BatchApplied ==
   /\ up /\ pcA = "apply" /\ cur.i > cur.hi
   /\ pcA' = "wait"
-  /\ UNCHANGED <<chan, cur, applied, snapi, store, lastIdx, clientVars, raftVars, glog,
+  /\ UNCHANGED <<chan, cur, applied, snapi, store, lastIdx, instApplied, clientVars, raftVars, glog,
                  snapVars, durVars, lifeVars>>
 
 (* applyCommits: <-ent.raftDone, then maybeTriggerSnapshot: beginSnapshot's synchronous    *)
@@ -259,7 +294,7 @@ WaitDoneAndMaybeSnapshot ==
      THEN /\ pcS' = "copy" /\ sIdx' = applied /\ sImg' = store /\ snapi' = applied
           /\ nsnaps' = nsnaps + 1
      ELSE UNCHANGED <<pcS, sIdx, sImg, snapi, nsnaps>>
-  /\ UNCHANGED <<chan, applied, store, lastIdx, latestSnap, released, purgeCk, clientVars,
+  /\ UNCHANGED <<chan, applied, store, lastIdx, instApplied, latestSnap, released, purgeCk, clientVars,
                  raftVars, glog, durVars, lifeVars>>
 
 ----------------------------------------------------------------------------
@@ -271,7 +306,7 @@ CkptDone ==      \* sn.GetData(): the checkpoint directory is complete; backupLo
   /\ ckpt' = [x \in DOMAIN ckpt \cup {sIdx} |-> IF x = sIdx THEN sImg ELSE ckpt[x]]
   /\ purgeCk' = TRUE
   /\ UNCHANGED <<sIdx, sImg, latestSnap, released, nsnaps, walEnts, walCommit, walSnaps,
-                 walLow, snapFiles, clientVars, raftVars, glog, applyVars, lifeVars>>
+                 walLow, snapFiles, torn, clientVars, raftVars, glog, applyVars, lifeVars>>
 
 CreateSnap ==    \* raftStorage.CreateSnapshot (memory)
   /\ SnapStep("create", "file")
@@ -283,13 +318,13 @@ SaveSnapFile ==
   /\ IF Mutant = "MarkerBeforeFile" THEN SnapStep("marker2", "sync") ELSE SnapStep("file", "marker")
   /\ snapFiles' = snapFiles \cup {sIdx}
   /\ UNCHANGED <<sIdx, sImg, latestSnap, released, nsnaps, purgeCk, walEnts, walCommit,
-                 walSnaps, walLow, ckpt, clientVars, raftVars, glog, applyVars, lifeVars>>
+                 walSnaps, walLow, ckpt, torn, clientVars, raftVars, glog, applyVars, lifeVars>>
 
 WalSnapMarker ==
   /\ IF Mutant = "MarkerBeforeFile" THEN SnapStep("file", "marker2") ELSE SnapStep("marker", "sync")
   /\ walSnaps' = walSnaps \cup {sIdx}
   /\ UNCHANGED <<sIdx, sImg, latestSnap, released, nsnaps, purgeCk, walEnts, walCommit,
-                 walLow, snapFiles, ckpt, clientVars, raftVars, glog, applyVars, lifeVars>>
+                 walLow, snapFiles, ckpt, torn, clientVars, raftVars, glog, applyVars, lifeVars>>
 
 WalSync ==       \* persistStorage.Sync(): nothing to do under the process-kill model
   /\ SnapStep("sync", "release")
@@ -315,6 +350,97 @@ Compact ==       \* raftStorage.Compact (memory log)
                  raftVars, glog, applyVars, lifeVars>>
 
 ----------------------------------------------------------------------------
+(* install path of a follower: the leader sends a snapshot instead of entries (the follower  *)
+(* is behind the leader's compaction point).  node/raft.go processReady with a non-empty     *)
+(* rd.Snapshot and node/node.go applySnapshot:                                              *)
+(*   raft:  publish (snapshot) ... wait for the transfer result                             *)
+(*   apply: PrepareSnapshot = fetch the leader's checkpoint (apply.snapshot.prepared)       *)
+(*   raft:  SaveSnap = snapshot file, WAL marker (snap.file / persist.snap); wal.Save       *)
+(*          (persist.wal); Sync; raftDone; raftStorage.ApplySnapshot; Release               *)
+(*          (snap.install.released); raftDone; Advance                                      *)
+(*   apply: after the first raftDone RestoreFromSnapshot (apply.snapshot.restored), then    *)
+(*          the second raftDone as for any batch.                                           *)
+InstStep(from, to) == up /\ pcR = from /\ pcR' = to
+
+TakeReadySnap ==
+  /\ Install /\ up /\ role = "follower" /\ pcR = "idle" /\ ninst < 1 /\ Len(chan) < ChanCap
+  /\ \E si \in (commit + 1)..Len(glog) :
+       /\ rlog' = SubSeq(glog, 1, si)      \* raft restores only forward: si > commit
+       /\ commit' = si
+       /\ rseq' = rseq + 1
+       /\ rdy' = [to |-> si, lo |-> handed + 1, hi |-> handed, c |-> si, r |-> rseq + 1, snap |-> si]
+  /\ ninst' = ninst + 1 /\ pcR' = "ipub"
+  /\ UNCHANGED <<propQ, handed, role, glog, clientVars, applyVars, snapVars, durVars, lifeVars>>
+
+InstPublish ==
+  /\ InstStep("ipub", "iwait")
+  /\ chan' = Append(chan, [NoBatch EXCEPT !.lo = rdy.lo, !.hi = rdy.hi, !.r = rdy.r, !.i = rdy.lo, !.snap = rdy.snap])
+  /\ UNCHANGED <<propQ, rlog, commit, handed, rdy, rseq, role, ninst, glog, clientVars,
+                 pcA, cur, applied, snapi, store, lastIdx, instApplied, snapVars, durVars, lifeVars>>
+
+(* apply goroutine: the checkpoint of the leader's snapshot is copied into the local backup dir *)
+InstPrepare ==
+  /\ up /\ pcA = "iprep"
+  /\ ckpt' = [x \in DOMAIN ckpt \cup {cur.snap} |-> IF x = cur.snap THEN SubSeq(glog, 1, cur.snap) ELSE ckpt[x]]
+  /\ cur' = [cur EXCEPT !.prep = TRUE]
+  /\ pcA' = IF Mutant = "RestoreBeforePersist" THEN "irestore" ELSE "iwait1"
+  /\ UNCHANGED <<chan, applied, snapi, store, lastIdx, instApplied, clientVars, raftVars, glog, snapVars,
+                 walEnts, walCommit, walSnaps, walLow, snapFiles, torn, lifeVars>>
+
+InstSnapFile ==      \* after applySnapshotTransferResult
+  /\ InstStep("iwait", "imark") /\ cur.snap = rdy.snap /\ cur.prep
+  /\ snapFiles' = snapFiles \cup {rdy.snap}
+  /\ UNCHANGED <<propQ, rlog, commit, handed, rdy, rseq, role, ninst, glog, clientVars, applyVars, snapVars,
+                 walEnts, walCommit, walSnaps, walLow, ckpt, torn, lifeVars>>
+
+InstSnapMarker ==    \* WAL.SaveSnapshot + UpdateSnapshotState
+  /\ InstStep("imark", "isave")
+  /\ walSnaps' = walSnaps \cup {rdy.snap}
+  /\ latestSnap' = IF InstLatestAfterSave THEN latestSnap ELSE rdy.snap
+  /\ UNCHANGED <<propQ, rlog, commit, handed, rdy, rseq, role, ninst, glog, clientVars, applyVars,
+                 pcS, sIdx, sImg, released, nsnaps, purgeCk,
+                 walEnts, walCommit, walLow, snapFiles, ckpt, torn, lifeVars>>
+
+InstWalSave ==       \* wal.Save(hard state with commit = snapshot index); what lies below it is history
+  /\ InstStep("isave", "isync")
+  /\ walEnts' = SubSeq(rlog, 1, rdy.to) /\ walCommit' = rdy.c /\ walLow' = Max(walLow, rdy.snap + 1)
+  /\ latestSnap' = rdy.snap
+  /\ UNCHANGED <<propQ, rlog, commit, handed, rdy, rseq, role, ninst, glog, clientVars, applyVars,
+                 pcS, sIdx, sImg, released, nsnaps, purgeCk,
+                 walSnaps, snapFiles, ckpt, torn, lifeVars>>
+
+InstSyncDone1 ==     \* persistStorage.Sync(); raftDone <- : the apply loop may restore now
+  /\ InstStep("isync", "irel")
+  /\ cur' = IF cur.snap = rdy.snap THEN [cur EXCEPT !.done1 = TRUE] ELSE cur
+  /\ UNCHANGED <<propQ, rlog, commit, handed, rdy, rseq, role, ninst, glog, clientVars,
+                 chan, pcA, applied, snapi, store, lastIdx, instApplied, snapVars, durVars, lifeVars>>
+
+InstRelease ==       \* raftStorage.ApplySnapshot (memory) + persistStorage.Release
+  /\ InstStep("irel", "done")
+  /\ released' = Max(released, rdy.snap)
+  /\ UNCHANGED <<propQ, rlog, commit, handed, rdy, rseq, role, ninst, glog, clientVars, applyVars,
+                 pcS, sIdx, sImg, latestSnap, nsnaps, purgeCk, durVars, lifeVars>>
+
+(* apply goroutine: RestoreFromSnapshot copies the checkpoint into the engine directory.  *)
+(* In the code that is not atomic (AtomicRestore = FALSE): a crash in between leaves a     *)
+(* torn directory.                                                                         *)
+InstRestoreBegin ==
+  /\ ~AtomicRestore /\ up /\ ~torn
+  /\ ((pcA = "iwait1" /\ cur.done1) \/ pcA = "irestore")
+  /\ torn' = TRUE /\ pcA' = "irestore2"
+  /\ UNCHANGED <<chan, cur, applied, snapi, store, lastIdx, instApplied, clientVars, raftVars, glog, snapVars,
+                 walEnts, walCommit, walSnaps, walLow, snapFiles, ckpt, lifeVars>>
+InstRestore ==
+  /\ up
+  /\ IF AtomicRestore THEN ((pcA = "iwait1" /\ cur.done1) \/ pcA = "irestore") ELSE pcA = "irestore2"
+  /\ cur.snap \in DOMAIN ckpt
+  /\ store' = ckpt[cur.snap] /\ applied' = cur.snap /\ snapi' = cur.snap /\ instApplied' = cur.snap
+  /\ torn' = FALSE
+  /\ pcA' = "apply"
+  /\ UNCHANGED <<chan, cur, lastIdx, clientVars, raftVars, glog, snapVars,
+                 walEnts, walCommit, walSnaps, walLow, snapFiles, ckpt, lifeVars>>
+
+----------------------------------------------------------------------------
 (* purges *)
 
 (* fileutil.PurgeFile on the WAL directory: removes unlocked (released) segments; modelled *)
@@ -324,14 +450,14 @@ PurgeWal ==
   /\ up /\ walLow < released
   /\ walLow' = released
   /\ walSnaps' = {m \in walSnaps : m >= released}
-  /\ UNCHANGED <<walEnts, walCommit, snapFiles, ckpt, clientVars, raftVars, glog, applyVars,
+  /\ UNCHANGED <<walEnts, walCommit, snapFiles, ckpt, torn, clientVars, raftVars, glog, applyVars,
                  snapVars, lifeVars>>
 
 (* fileutil.PurgeFile on the snapshot directory: keeps the KeepSnap newest file names *)
 PurgeSnap ==
   /\ up /\ Cardinality(snapFiles) > KeepSnap
   /\ snapFiles' = snapFiles \ {MinOf(snapFiles)}
-  /\ UNCHANGED <<walEnts, walCommit, walSnaps, walLow, ckpt, clientVars, raftVars, glog,
+  /\ UNCHANGED <<walEnts, walCommit, walSnaps, walLow, ckpt, torn, clientVars, raftVars, glog,
                  applyVars, snapVars, lifeVars>>
 
 (* rockredis purgeOldCheckpoint(keepNum, dir, latestSnapIndex), run by backupLoop after a  *)
@@ -348,7 +474,7 @@ PurgeCkpt ==
           /\ (Mutant = "PurgeCkptIgnoresLatest" \/ L[1 + KeepCkpt] < latestSnap)
        THEN ckpt' = [x \in DOMAIN ckpt \ {L[1]} |-> ckpt[x]]
        ELSE UNCHANGED ckpt
-  /\ UNCHANGED <<walEnts, walCommit, walSnaps, walLow, snapFiles, clientVars, raftVars, glog,
+  /\ UNCHANGED <<walEnts, walCommit, walSnaps, walLow, snapFiles, torn, clientVars, raftVars, glog,
                  applyVars, pcS, sIdx, sImg, latestSnap, released, nsnaps, lifeVars>>
 
 ----------------------------------------------------------------------------
@@ -362,9 +488,10 @@ Crash ==
   /\ pcR' = "down" /\ pcA' = "down" /\ pcS' = "down"
   /\ chan' = <<>> /\ cur' = NoBatch /\ applied' = 0 /\ snapi' = 0 /\ lastIdx' = 0
   /\ store' = IF Persistent THEN store ELSE <<>>
+  /\ instApplied' = 0
   /\ sIdx' = 0 /\ sImg' = <<>> /\ latestSnap' = 0 /\ released' = 0 /\ purgeCk' = FALSE
   /\ role' = IF role = "leader" THEN "follower" ELSE role
-  /\ UNCHANGED <<nextId, acked, ackOk, ackCnt, rseq, glog, nsnaps, durVars, restarts, failedRestart>>
+  /\ UNCHANGED <<nextId, acked, ackOk, ackCnt, rseq, ninst, glog, nsnaps, durVars, restarts, failedRestart>>
 
 (* startRaft: ValidSnapshotEntries + LoadNewestAvailable *)
 ValidSnaps == {s \in snapFiles : s \in walSnaps /\ s <= walCommit}
@@ -373,6 +500,7 @@ ChosenSnap == IF ValidSnaps = {} THEN 0 ELSE MaxOf(ValidSnaps)
 CanRestart == LET s == ChosenSnap IN
                 /\ (s > 0 => s \in DOMAIN ckpt)
                 /\ walLow <= s + 1
+                /\ ~torn        \* NewKVStore opens the engine directory before startRaft restores anything
 
 RestartLoad ==
   /\ ~up /\ pcR = "down" /\ ~failedRestart
@@ -386,8 +514,8 @@ RestartLoad ==
             /\ purgeCk' = (s > 0)
             /\ pcR' = "replay"
             /\ UNCHANGED failedRestart
-  /\ UNCHANGED <<clientVars, propQ, rlog, commit, handed, rdy, rseq, role, glog, chan, pcA, cur,
-                 lastIdx, pcS, sIdx, sImg, nsnaps, durVars, up, crashes, restarts>>
+  /\ UNCHANGED <<clientVars, propQ, rlog, commit, handed, rdy, rseq, role, ninst, glog, chan, pcA, cur,
+                 lastIdx, instApplied, pcS, sIdx, sImg, nsnaps, durVars, up, crashes, restarts>>
 
 (* replayWAL: hard state and entries into raft storage; raft's applied cursor = snapshot *)
 ReplayFrom == IF Mutant = "ReplaySkipsOne" THEN applied + 1 ELSE applied
@@ -397,7 +525,7 @@ RestartReplay ==
   /\ lastIdx' = Len(walEnts)
   /\ up' = TRUE /\ restarts' = restarts + 1
   /\ pcR' = "idle" /\ pcA' = "idle" /\ pcS' = "idle"
-  /\ UNCHANGED <<clientVars, propQ, rdy, rseq, role, glog, chan, cur, applied, snapi, store,
+  /\ UNCHANGED <<clientVars, propQ, rdy, rseq, role, ninst, glog, chan, cur, applied, snapi, store, instApplied,
                  sIdx, sImg, latestSnap, released, nsnaps, purgeCk, durVars, crashes, failedRestart>>
 
 ----------------------------------------------------------------------------
@@ -408,6 +536,8 @@ Next ==
   \/ CkptDone \/ CreateSnap \/ SaveSnapFile \/ WalSnapMarker \/ WalSync \/ Release
   \/ UpdateState \/ Compact
   \/ PurgeWal \/ PurgeSnap \/ PurgeCkpt
+  \/ TakeReadySnap \/ InstPublish \/ InstPrepare \/ InstSnapFile \/ InstSnapMarker \/ InstWalSave
+  \/ InstSyncDone1 \/ InstRelease \/ InstRestoreBegin \/ InstRestore
   \/ Crash \/ RestartLoad \/ RestartReplay
 
 Spec == Init /\ [][Next]_vars
@@ -426,12 +556,19 @@ NoPhantom == up => store = SubSeq(rlog, 1, applied)
 
 CaughtUp == /\ up /\ pcR = "idle" /\ pcA = "idle" /\ chan = <<>> /\ propQ = <<>>
             /\ applied = Len(rlog)
-            /\ (role # "single" => Len(rlog) >= Len(glog))
+            /\ (role # "single" => IsPrefix(glog, rlog))
 (* after restart and replay (and, in a 3-replica group, catching up with the group) every  *)
 (* acknowledged operation is in the store                                                  *)
 AckedDurable == (restarts > 0 /\ CaughtUp) => Range(acked) \subseteq Range(store)
 (* in a 3-replica group an answer is only given for a group-committed entry *)
 AckedCommitted == (Role # "single") => Range(acked) \subseteq Range(glog)
+
+(* a follower serves the data of an installed snapshot only when that snapshot's file, WAL   *)
+(* marker and commit index are durable (it "never serves data beyond its durable commit")    *)
+InstalledDurable == (up /\ instApplied > 0) =>
+                      /\ (instApplied \in snapFiles \/ Cardinality(snapFiles) >= KeepSnap)
+                      /\ (instApplied \in walSnaps \/ walLow > instApplied)
+                      /\ walCommit >= instApplied
 
 (* the pending/acked table: a waiter is triggered at most once, only by the apply of its   *)
 (* own id, and only after that apply                                                       *)
